@@ -25,16 +25,18 @@ AP_K2_INNER = {"k": 2, "maxtok": 2, "mintok0": 2, "maxtok1": 1, "tokmask": 1, "s
 AP_K2_COPYEDIT = {"k": 2, "maxtok": 2, "maxtok0": 1, "mintok1": 2, "tokmask": 1, "shapemask": 2328, "nvals": 2, "kmask0": 24, "kmask1": 7}
 # tokens made of ~0/~1 escapes (optionally followed by 0/1) on a document whose member names are ~1, /, ~0, ~, /0: decoding order
 AP_ESC = {"k": 1, "maxtok": 2, "tokmask": 64, "shapemask": 262144, "nvals": 2, "kmask0": 63}
+# containers under names that need an escaped ANCESTOR token, names spelled plainly (shape 19) or through JSON escapes (shape 20)
+AP_ESCPARENT = {"k": 1, "maxtok": 2, "mintok0": 1, "tokmask": 13, "shapemask": 1572864, "nvals": 2, "kmask0": 63}
 AP_K1_T3 = {"k": 1, "maxtok": 3, "tokmask": 15, "shapemask": ALLSHAPES, "nvals": 8, "kmask0": 63}
 AP_K2_DEEP = {"k": 2, "maxtok": 2, "tokmask": 1, "shapemask": 315, "nvals": 2, "kmask0": 63, "kmask1": 63}
 AP_K2_INNER_ALL = {"k": 2, "maxtok": 2, "mintok0": 2, "tokmask": 1, "shapemask": 2328, "nvals": 4, "kmask0": 63, "kmask1": 63}
 AP_K3 = {"k": 3, "maxtok": 1, "tokmask": 1, "shapemask": 34, "nvals": 2, "kmask0": 7, "kmask1": 63, "kmask2": 48}
-AP_BOUND = ("13 document shapes (<= 6 nodes, depth <= 3, object and array roots, null members and null elements, names containing ~ and /), "
+AP_BOUND = ("21 document shapes selected by shapemask (<= 7 nodes, depth <= 3, object and array roots, null members and null elements, names containing ~ and /, containers under such names, names spelled through JSON escapes, HTML-relevant strings, number-literal templates), "
             "K operations (kmask selects the kinds per position), pointers of mintok..maxtok tokens; each token 1-3 symbolic bytes "
             "(any printable ASCII except quote, backslash, slash, tilde) or the fixed spellings a~0b / c~1d; 8 value shapes with symbolic leaves; SupportNegativeIndices symbolic")
 def apply_harnesses(extra_quick=(), extra_thorough=()):
-    q = [AP_K1, AP_K2_FLAT, AP_K2_INNER, AP_K2_COPYEDIT, AP_ESC] + list(extra_quick)
-    t = [AP_K1_T3, AP_K2_DEEP, AP_K2_INNER_ALL, AP_K3, AP_K2_COPYEDIT, AP_ESC] + list(extra_thorough)
+    q = [AP_K1, AP_K2_FLAT, AP_K2_INNER, AP_K2_COPYEDIT, AP_ESC, AP_ESCPARENT] + list(extra_quick)
+    t = [AP_K1_T3, AP_K2_DEEP, AP_K2_INNER_ALL, AP_K3, AP_K2_COPYEDIT, AP_ESC, AP_ESCPARENT] + list(extra_thorough)
     return [
         H("H_Apply", q, t, ["apply/end", "apply/ref-fails", "apply/ref-succeeds"], AP_BOUND),
         H("H_Apply_Idx", [{"tokbytes": 2, "nshapes": 6}], [{"tokbytes": 2, "nshapes": 6}, {"tokbytes": 3, "nshapes": 6}],
@@ -55,6 +57,7 @@ L_K2_FLAT = {"k": 2, "kmask0": 63, "kmask1": 63, "maxtok": 1, "tokmask": 1, "sha
 L_K2_INNER = {"k": 2, "maxtok": 2, "mintok0": 2, "maxtok1": 1, "tokmask": 1, "shapemask": 2328, "nvals": 2, "kmask0": 7, "kmask1": 56}
 L_K2_COPYEDIT = {"k": 2, "maxtok": 2, "maxtok0": 1, "mintok1": 2, "tokmask": 1, "shapemask": 2328, "nvals": 2, "kmask0": 16, "kmask1": 7}
 L_IDX = {"k": 1, "kmask0": 63, "maxtok": 2, "mintok0": 1, "tokmask": 2, "shapemask": 432, "nvals": 2}
+L_ESC = {"k": 1, "kmask0": 63, "maxtok": 2, "mintok0": 1, "tokmask": 64, "shapemask": 262144, "nvals": 2}
 L_LIMIT = {"k": 2, "kmask0": 16, "kmask1": 16, "maxtok": 1, "tokmask": 1, "shapemask": 40960, "nvals": 2, "limit": 1}
 L_LIMIT1 = {"k": 1, "kmask0": 16, "maxtok": 2, "tokmask": 1, "shapemask": 57344, "nvals": 2, "limit": 1}
 MERGE_Q = [{"docm": 2, "docvals": 7, "patchm": 2, "patchvals": 13}, {"docm": 1, "docvals": 2, "patchm": 3, "patchvals": 2}, {"docm": 2, "docvals": 2, "patchm": 2, "patchvals": 6, "emptynames": 1}]
@@ -162,7 +165,8 @@ C13_K2B = {"k": 2, "kmask0": 61, "kmask1": 2, "maxtok": 1, "tokmask": 1, "shapem
 C13_K1_T3 = {"k": 1, "kmask0": 2, "maxtok": 3, "tokmask": 15, "shapemask": ALLSHAPES, "nvals": 2, "optmask": 1}
 C13_K2_DEEP = {"k": 2, "kmask0": 63, "kmask1": 63, "maxtok": 2, "tokmask": 1, "shapemask": 24, "nvals": 2, "optmask": 1}
 C13_K1_ALL = {"k": 1, "kmask0": 63, "maxtok": 2, "tokmask": 3, "shapemask": ALLSHAPES, "nvals": 2, "optmask": 1}
-R["C13"] = {"harnesses": [H("H_Apply", [C13_K1, C13_K1_ALL, C13_K2, C13_K2B], [C13_K1_T3, C13_K2, C13_K2B, C13_K2_DEEP], ["apply/end", "apply/ref-fails"],
+C13_ESCPARENT = dict(AP_ESCPARENT, optmask=1)
+R["C13"] = {"harnesses": [H("H_Apply", [C13_K1, C13_K1_ALL, C13_K2, C13_K2B, C13_ESCPARENT], [C13_K1_T3, C13_K2, C13_K2B, C13_K2_DEEP], ["apply/end", "apply/ref-fails"],
     AP_BOUND + "; AllowMissingPathOnRemove on/off; the reference skips exactly the removes whose target or ancestor is absent"),
     H("H_AllowMissing_Meta", [{"k": 2, "maxtok": 1, "tokmask": 1, "shapemask": 166, "nvals": 2}], [{"k": 2, "maxtok": 2, "tokmask": 1, "shapemask": 190, "nvals": 2}, {"k": 3, "maxtok": 1, "tokmask": 1, "shapemask": 34, "nvals": 2}], ["meta/end", "meta/skipped-some"],
       "metamorphic, both sides real code: patch P with the option on vs P minus the removes the reference classifies as skipped with the option off")],
@@ -172,7 +176,8 @@ R["C13"] = {"harnesses": [H("H_Apply", [C13_K1, C13_K1_ALL, C13_K2, C13_K2B], [C
 C14_K1 = {"k": 1, "kmask0": 1, "maxtok": 3, "tokmask": 13, "shapemask": 1561, "nvals": 2, "optmask": 2}
 C14_K1_ALL = {"k": 1, "kmask0": 1, "maxtok": 3, "tokmask": 13, "shapemask": ALLSHAPES, "nvals": 3, "optmask": 2}
 C14_K2 = {"k": 2, "kmask0": 1, "kmask1": 63, "maxtok": 2, "maxtok1": 1, "tokmask": 1, "shapemask": 521, "nvals": 2, "optmask": 2}
-R["C14"] = {"harnesses": [H("H_Apply", [C14_K1], [C14_K1_ALL, C14_K2], ["apply/end", "apply/ref-succeeds"],
+C14_ESCPARENT = {"k": 1, "kmask0": 1, "maxtok": 3, "mintok0": 1, "tokmask": 13, "shapemask": 1572864, "nvals": 2, "optmask": 2}
+R["C14"] = {"harnesses": [H("H_Apply", [C14_K1, C14_ESCPARENT], [C14_K1_ALL, C14_K2, C14_ESCPARENT], ["apply/end", "apply/ref-succeeds"],
     "add with EnsurePathExistsOnAdd on/off, paths of <= 3 tokens (one symbolic byte: names, indices 0-9, '-'; or the spellings a~0b / c~1d), over documents in which any prefix of the path may exist; optionally followed by one arbitrary operation; compared ordered with the reference ensure-then-add (created containers hold only the path and null padding; everything else unchanged)"),
     H("H_Ensure_Same", [{"maxtok": 2, "tokmask": 13, "shapemask": 1561, "nvals": 2}], [{"maxtok": 3, "tokmask": 13, "shapemask": ALLSHAPES, "nvals": 2}], ["ensure/plain-add-succeeds"],
       "an add that succeeds without the option gives byte-identical output with it")],
@@ -222,7 +227,7 @@ R["C15"] = {"harnesses": [
                     "Apply on the empty document: open known finding KF-empty-doc"],
     "outside_bound": ["strings of more than 2 atoms", "invalid UTF-8 input (the property is stated for UTF-8 input)"]}
 
-R["C18"] = {"harnesses": [H("H_Legacy_Apply", [L_K1_Q, L_K2_FLAT, L_K2_INNER, L_K2_COPYEDIT, L_LIMIT1, L_IDX], [L_K1, L_K2_FLAT, L_K2_INNER, L_K2_COPYEDIT, L_LIMIT1, L_LIMIT, L_IDX, dict(L_K2_FLAT, shapemask=315, maxtok=2)],
+R["C18"] = {"harnesses": [H("H_Legacy_Apply", [L_K1_Q, L_K2_FLAT, L_K2_INNER, L_K2_COPYEDIT, L_LIMIT1, L_IDX, L_ESC], [L_K1, L_K2_FLAT, L_K2_INNER, L_K2_COPYEDIT, L_LIMIT1, L_LIMIT, L_IDX, L_ESC, dict(L_K2_FLAT, shapemask=315, maxtok=2)],
     ["legacy/end", "legacy/ref-fails"], AP_BOUND.replace("SupportNegativeIndices symbolic", "package variable SupportNegativeIndices on/off; optionally package variable AccumulatedCopySizeLimit = any int64") + "; pointers have at least one token (v4 offers no root-replacing add and no copy from the root)", target="legacy")],
     "anchors": ["json-patch.findObject", "(github.com/evanphx/json-patch.Patch).copy", "(github.com/evanphx/json-patch.Patch).move", "(github.com/evanphx/json-patch.Patch).test", "(github.com/evanphx/json-patch.Patch).add", "(github.com/evanphx/json-patch.Patch).remove", "(github.com/evanphx/json-patch.Patch).replace", "json-patch.deepCopy", "(*github.com/evanphx/json-patch.lazyNode).equal"],
     "assumptions": ["the root package is staged (non-test *.go files copied at check time) into a scratch module named github.com/evanphx/json-patch; the standard library's encoding/json (this toolchain's source) is executed under the same reflect model",
